@@ -41,8 +41,10 @@ RULE = ("class hierarchies of 1..4 class statements (plus up to 3 extra front-en
         "order differs from the textual order), annotations (plain / field / ClassVar in 12 spellings, "
         "quoted, decoys; with and without `from __future__ import annotations`), these, make_class}, "
         "class-level kw_only, per field default in {none, value, Factory, Factory(takes_self)}, init, "
-        "kw_only, alias (incl. empty and colliding), type=/annotation (incl. both), 10 kinds of "
-        "field_transformer (reorder, drop, add, rename, duplicate, kw_only, clear alias); an "
+        "kw_only, alias (incl. empty and colliding), type=/annotation (incl. both), 12 kinds of "
+        "field_transformer (reorder, drop, add, rename, duplicate, kw_only, clear alias, stamp metadata "
+        "through one reused dict that is written again afterwards - metadata content is checked by the "
+        "harness, it is not modelled), decorator objects re-used for several classes; an "
         "exhaustive sweep of all hierarchy shapes with <= 3 (quick) / <= 4 (thorough) classes x "
         "{plain, decorated without a, decorated defining a} per class x {legacy, by_mro}; observed per "
         "class statement: exception class or (fields tuple as (name, inherited, kw_only, init, default "
